@@ -1,18 +1,22 @@
 #!/venv/bin/python
-"""Copy sub-agent results /tmp/sa/<PROP>/_seeded/change<N>/ into /verif/seeded/<PROP>-<N>/ with a meta.json."""
+"""Copy sub-agent results <base>/<PROP>/_seeded/change<N>/ into /verif/seeded/<PROP>-<N+offset>/ with a meta.json.
+  tools/import_seeded.py [base=/tmp/sa] [offset=0] [round=1]"""
 import glob, json, os, shutil, sys
-for d in sorted(glob.glob("/tmp/sa/C*/_seeded/change*")):
-    prop = d.split("/")[3]
-    n = d[-1]
+base = sys.argv[1] if len(sys.argv) > 1 else "/tmp/sa"
+offset = int(sys.argv[2]) if len(sys.argv) > 2 else 0
+rnd = sys.argv[3] if len(sys.argv) > 3 else "1"
+for d in sorted(glob.glob(os.path.join(base, "C*/_seeded/change*"))):
+    prop = d.split("/")[-3]
+    n = int(d[-1]) + offset
     dst = f"/verif/seeded/{prop}-{n}"
-    if os.path.exists(dst) or not os.path.exists(os.path.join(d, "patch.diff")):
+    if os.path.exists(dst) or not os.path.exists(os.path.join(d, "patch.diff")) or not os.path.exists(os.path.join(d, "demo.py")):
         continue
     os.makedirs(dst)
     for f in ("patch.diff", "demo.py", "notes.md"):
         if os.path.exists(os.path.join(d, f)):
             shutil.copy(os.path.join(d, f), dst)
-    notes = open(os.path.join(dst, "notes.md")).read() if os.path.exists(os.path.join(dst, "notes.md")) else ""
-    json.dump({"properties": [prop], "origin": "independent sub-agent given only the property text and a scratch worktree",
+    json.dump({"properties": [prop], "round": rnd,
+               "origin": "independent sub-agent given only the property text (round 2: plus the one-line titles of round-1 ideas to avoid) and a scratch worktree",
                "needs_to_manifest": "see notes.md", "demo": "demo.py",
                "verified_with": "tools/seeded.py (patch applies to a worktree of /repo HEAD; demo exit 0 clean / 1 changed; repository test-suite on the changed tree; quick checks with VERIF_REPO=<worktree>)"},
               open(os.path.join(dst, "meta.json"), "w"), indent=1)
